@@ -4,7 +4,7 @@ import sys
 
 from .. import obs as O
 from .. import sgr_model as M
-from .common import (Contract, ansi_values, history, run_cases, tier_sizes, is_ansi, safe_obs, settings_texts,
+from .common import (trie_case, Contract, ansi_values, history, run_cases, tier_sizes, is_ansi, safe_obs, settings_texts,
                      esc_seam_values, small_scope_values, small_scope_on)
 from ..gen import gen_format_spec
 
@@ -317,6 +317,22 @@ def drive(ctx, mon, tier, only_case=None):
                 for sp in specs:
                     format(v, sp)
             ctx.extra['n_small_scope_values'] = nv
+            return
+        if case == 1:
+            tspecs = ['>5', '*^6:blue', '--<5:1', '+>6:34', ':31', '^6', '.-^7:4'] if tier == 'thorough' else ['*^6:blue', '--<5:1', '+>6:34']
+
+            def visit(v, p):
+                for w in (4, 5):
+                    for meth in ('ljust', 'rjust', 'center'):
+                        if isinstance(v, L.AnsiString):
+                            getattr(v, meth)(w, '*', extend_formatting=True)
+                            getattr(v, meth)(w, '*', extend_formatting=False)
+                        else:
+                            getattr(v, meth)(w, '*')
+                v.zfill(5)
+                for sp in tspecs:
+                    format(v, sp)
+            trie_case(ctx, mon, tier, 2, 3, visit=visit, cls=L.AnsiStr if ctx.shard % 4 == 1 else None)
             return
         history(L, rng, ex, rng.randint(1, sz['nops']), sz['maxlen'], 'mixed' if rng.random() < 0.2 else 'wf', WEIGHTS,
                 esc=rng.random() < 0.12)
